@@ -225,6 +225,8 @@ def _radius(run, cfg):
 def execute(case):
     run = Run(case)
     X, name = run.give("X", run.X), run.name
+    if X.base is not None:
+        run.give("X_backing_buffer", X.base)      # strided layout: the gaps between the rows must stay untouched too
     M = rc.library_metric(name)
     entry = case["entry"]
     cl = run.classes
@@ -313,7 +315,9 @@ def execute(case):
         run.snapshot()
         if entry == "kmedoids":
             run.r = km_mod.kmedoids(X, M, n_iters=cfg["n_iters"], random_state=case["seed"], **kw)
-            if cfg["proposals"] is not None and start != "cold":
+            # brute-force PAM replay, only to classify the case (bounded: it costs O(sweeps * k^2 * n))
+            if (cfg["proposals"] is not None and start != "cold"
+                    and cfg["n_iters"] * cfg["k"] ** 2 * run.n <= 300000):
                 cur, logs = list(cidx), []
                 for _ in range(cfg["n_iters"]):
                     cur, lg = rc.ref_pam_sweep(name, run.X_before, cur, cfg["proposals"])
@@ -449,8 +453,8 @@ def oracle_inputs_unmodified(run):
     require(run.r is not None, "no result")
     for name, obj in run.inputs.items():
         require(freeze(obj) == run.snap[name], "input %r was modified by the call" % name,
-                before=run.snap[name][:3] if name == "X" else _thaw(run.snap[name]),
-                after=None if name == "X" else obj)
+                before=run.snap[name][:3] if name in ("X", "X_backing_buffer") else _thaw(run.snap[name]),
+                after=None if name in ("X", "X_backing_buffer") else obj)
     require(np.array_equal(run.X, run.X_before), "X was modified by the call")
 
 
